@@ -169,13 +169,14 @@ pub(crate) fn process_notification(manager: &mut RequestManager, notif: Notifica
 /// Process a response from the server.
 ///
 /// Returns `Ok(None)` if the response was successfully sent.
-/// Returns `Ok(Some(_))` if the response got an error but could be handled.
+/// Returns `Ok(Some(sub_id))` if a subscription was established but nobody waits for it anymore;
+/// the subscription must then be closed (unsubscribed).
 /// Returns `Err(_)` if the response couldn't be handled.
 pub(crate) fn process_single_response(
 	manager: &mut RequestManager,
 	response: RawResponseOwned,
 	max_capacity_per_subscription: usize,
-) -> Result<Option<RequestMessage>, InvalidRequestId> {
+) -> Result<Option<SubscriptionId<'static>>, InvalidRequestId> {
 	let response_id = response.id().clone().into_owned();
 
 	match manager.request_status(&response_id) {
@@ -199,6 +200,8 @@ pub(crate) fn process_single_response(
 			let json = match result {
 				Ok(s) => s.result,
 				Err(e) => {
+					// No subscription, hence no unsubscribe call: release the reserved slot.
+					manager.release_reserved_slot(&unsub_id);
 					let _ = send_back_oneshot.send(Err(Error::Call(e)));
 					return Ok(None);
 				}
@@ -207,6 +210,7 @@ pub(crate) fn process_single_response(
 			let sub_id = match serde_json::from_str::<SubscriptionId>(json.get()) {
 				Ok(s) => s.into_owned(),
 				Err(e) => {
+					manager.release_reserved_slot(&unsub_id);
 					let _ = send_back_oneshot.send(Err(e.into()));
 					return Ok(None);
 				}
@@ -214,14 +218,23 @@ pub(crate) fn process_single_response(
 
 			let (subscribe_tx, subscribe_rx) = subscription_channel(max_capacity_per_subscription);
 			if manager
-				.insert_subscription(response_id.clone(), unsub_id, sub_id.clone(), subscribe_tx, unsubscribe_method)
+				.insert_subscription(
+					response_id.clone(),
+					unsub_id.clone(),
+					sub_id.clone(),
+					subscribe_tx,
+					unsubscribe_method,
+				)
 				.is_ok()
 			{
 				match send_back_oneshot.send(Ok((subscribe_rx, sub_id.clone()))) {
 					Ok(_) => Ok(None),
-					Err(_) => Ok(build_unsubscribe_message(manager, response_id, sub_id)),
+					// Nobody is interested anymore: close it the same way as a dropped subscription,
+					// i.e. the send task builds and sends the unsubscribe call.
+					Err(_) => Ok(Some(sub_id)),
 				}
 			} else {
+				manager.release_reserved_slot(&unsub_id);
 				let _ = send_back_oneshot.send(Err(Error::InvalidSubscriptionId));
 				Ok(None)
 			}
